@@ -315,6 +315,14 @@ Definition ityp_code (t : ityp) : N :=
   | I_negation_start => 31
   end.
 Definition ityp_eqb (a b : ityp) : bool := N.eqb (ityp_code a) (ityp_code b).
+(* typ.endswith('-selector'), computed by Python for every item type *)
+Definition ityp_is_selector (t : ityp) : bool :=
+  match t with
+  | I_attribute_selector => true
+  | I_negation_type_selector => true
+  | I_type_selector => true
+  | _ => false
+  end.
 
 Definition legacy_pseudo_elements : list str := [[58; 102; 105; 114; 115; 116; 45; 108; 105; 110; 101]; [58; 102; 105; 114; 115; 116; 45; 108; 101; 116; 116; 101; 114]; [58; 98; 101; 102; 111; 114; 101]; [58; 97; 102; 116; 101; 114]].
 Definition counted_d_types : list ityp := [I_type_selector; I_negation_type_selector; I_pseudo_element].
